@@ -21,7 +21,8 @@ CLAIM = dict(
          "raw storage of the objects is pre-filled (0x00, and 0xCD for scripted histories) so that use of unconstructed members is deterministic. "
          "Trusted: std:: containers / Python lists as the model, ASan/UBSan/valgrind, the counting allocator of harness/c19_hist.hpp.",
     ref="DESIGN.md 4/C19")
-TARGETS_QUICK = [("c19_seq", "asan"), ("c19_sum", "asan"), ("c19_tup", "asan")]
+TARGETS_QUICK = [("c19_seq", "asan"), ("c19_sum", "asan"), ("c19_tup", "asan"), ("c19_vnt", "asan")]
+HARNESSES = ["c19_seq", "c19_sum", "c19_tup", "c19_vnt"]
 
 POISON = 205  # 0xCD
 # histories are tiny: a small quarantine keeps the page-fault cost of millions of malloc/free pairs down
@@ -39,6 +40,11 @@ CONFIGS = [
     dict(cont="small_vector", et="double", bin="c19_seq", kind=3, etc=1, family="seq", mk="smalld"),
     dict(cont="array", et="int", bin="c19_seq", kind=4, etc=0, family="seq", mk="arr"),
     dict(cont="array", et="double", bin="c19_seq", kind=4, etc=1, family="seq", mk="arr"),
+    dict(cont="vector", et="counted", bin="c19_vnt", kind=0, etc=0, family="seq", mk="vec", ak="vnt"),
+    # copying a never-written cell evaluates an indeterminate enum tag (UBSan abort) -> scripted histories only
+    dict(cont="vector", et="maybe_int", bin="c19_vnt", kind=0, etc=1, family="seq", mk="vec", ak="vnt", scripted_only=True),
+    # unchanged tree: either::operator= reads the tag of the never-constructed destination cell (UBSan abort) -> scripted histories only
+    dict(cont="vector", et="either_int_double", bin="c19_vnt", kind=0, etc=2, family="seq", mk="vec", ak="vnt", scripted_only=True),
     dict(cont="maybe", et="int", bin="c19_sum", kind=0, etc=0, family="maybe", eks=("int",)),
     dict(cont="maybe", et="double", bin="c19_sum", kind=0, etc=1, family="maybe", eks=("double",)),
     dict(cont="maybe", et="counted", bin="c19_sum", kind=0, etc=2, family="maybe", eks=("counted",), primary=True, deep=True),
@@ -52,6 +58,14 @@ CONFIGS = [
     dict(cont="tuple", et="counted_int_vector", bin="c19_tup", kind=0, etc=1, family="tuple", eks=("counted", "int", "vec"), conv=False),
     dict(cont="tuplev2", et="int_double_int", bin="c19_tup", kind=1, etc=0, family="tuple", eks=("int", "double", "int"), conv=True),
     dict(cont="tuplev2", et="counted_int_vector", bin="c19_tup", kind=1, etc=1, family="tuple", eks=("counted", "int", "vec"), conv=False),
+]
+
+SCRIPTED_VNT = [
+    [(1, 0, 0), (6, 0, 0), (6, 0, 0), (4, 1, 0), (8, 1, 0), (5, 0, 1)],   # push_back into malloc'ed cells
+    [(2, 0, 3), (8, 0, 0), (8, 0, 1), (8, 0, 2), (4, 1, 0)],               # sized construction, then first writes
+    [(3, 0, 2), (4, 1, 0), (6, 1, 0), (5, 0, 1)],                          # variadic construction, copy
+    [(1, 0, 0), (1, 1, 0), (5, 0, 1), (0, 0, 0)],                          # empty vectors only: must be harmless
+    [(2, 0, 3), (4, 1, 0)],                                                # copy of cells nobody wrote (std: value-initialised)
 ]
 
 PY_DERIVABLE = {"size", "has_value", "alternative", "element", "alias", "leak", "leak_block0", "object_leak", "object_missing",
@@ -265,7 +279,7 @@ def crash_family(kind):
 def run(ctx):
     quick = ctx.tier == "quick"
     rng = ctx.rng
-    bins = build_or_fail(harness_targets(["c19_seq", "c19_sum", "c19_tup"], "asan"))
+    bins = build_or_fail(harness_targets(HARNESSES, "asan"))
     accs = {cname(c): Acc() for c in CONFIGS}
     only = os.environ.get("C19_ONLY")  # debugging aid: restrict to one container name
     configs = [c for c in CONFIGS if not only or c["cont"] == only]
@@ -285,7 +299,12 @@ def run(ctx):
 
     depth_plan = {}
     for c in configs:
-        alpha = M.alphabet(c["family"], c.get("mk"))
+        if c.get("scripted_only"):
+            for st in SCRIPTED_VNT:
+                add(c, hist_line(c, 0, st), dict(kind="hist", steps=st, fill=0, scripted=True))
+            depth_plan[cname(c)] = ["%d scripted histories only" % len(SCRIPTED_VNT)]
+            continue
+        alpha = M.alphabet(c["family"], c.get("ak", c.get("mk")))
         prim = c.get("primary", False)
         if quick:
             depth = 5 if c.get("deep") else 4
@@ -316,10 +335,10 @@ def run(ctx):
             add(c, hist_line(c, 0, list(seq)), dict(kind="hist", steps=list(seq), fill=0))
         nrand, maxlen, nquiet = (500, 60, 0) if quick else (1000, 200, 10000)
         for _ in range(nrand):
-            st = M.random_history(rng, c["family"], c.get("mk"), maxlen)
+            st = M.random_history(rng, c["family"], c.get("ak", c.get("mk")), maxlen)
             add(c, hist_line(c, 0, st), dict(kind="hist", steps=st, fill=0, random=True))
         for _ in range(nquiet):   # verdict of the C++ side model only
-            st = M.random_history(rng, c["family"], c.get("mk"), maxlen)
+            st = M.random_history(rng, c["family"], c.get("ak", c.get("mk")), maxlen)
             add(c, "histq %d %d %d %s" % (c["kind"], c["etc"], 0, fmt_steps(st)), dict(kind="histq", steps=st, fill=0))
         # scripted histories on poisoned storage
         for st in M.fixed_histories(c["family"], c.get("mk")):
@@ -456,19 +475,21 @@ def run(ctx):
 
 def run_memcheck(ctx, configs, rng):
     """valgrind memcheck (plain build) on a sample: uninitialised-value use is the event"""
-    bins = build_or_fail(harness_targets(["c19_seq", "c19_sum", "c19_tup"], "plain"))
+    bins = build_or_fail(harness_targets(HARNESSES, "plain"))
     per_bin = {}
     meta = {}
     n = 0
     for c in configs:
-        alpha = M.alphabet(c["family"], c.get("mk"))
+        if c.get("scripted_only"):
+            continue
+        alpha = M.alphabet(c["family"], c.get("ak", c.get("mk")))
         for prefix in itertools.product(alpha, repeat=1):
             n += 1
             i = "m%d" % n
             per_bin.setdefault(c["bin"], []).append((i, "%s %s" % (i, enum_line(c, 0, alpha, list(prefix), 2))))
             meta[i] = dict(c=c, kind="enum")
         for _ in range(150):
-            st = M.random_history(rng, c["family"], c.get("mk"), 40)
+            st = M.random_history(rng, c["family"], c.get("ak", c.get("mk")), 40)
             n += 1
             i = "m%d" % n
             per_bin.setdefault(c["bin"], []).append((i, "%s %s" % (i, hist_line(c, 0, st))))
